@@ -3,8 +3,10 @@ Proof: Props/C08.v.  Correspondence: take a generated supported program, plant O
 construct at a random position (field / payload / generic argument / inside container chains to
 depth 5 / alias target / const / serialized_as string), with and without a skip marker on the
 enclosing member; run (a) parser::parse through libdrive (errors recorded?), compared with the model
-and judged by the extracted Gallina predicates item_unsupported / known_C08; (b) the real binary with
-a pre-existing output file: exit status, diagnostic naming the file, output untouched."""
+and judged by the extracted Gallina predicate item_unsupported (no recorded class is left: the two findings of
+the unchanged tree, C08-const-expr and C08-flatten-variant, are fixed in /repo; their witnesses run first and
+must now be rejected / carry the right value); (b) the real binary with a pre-existing output file: exit
+status, diagnostic naming the file, output untouched."""
 import concurrent.futures, json, os, subprocess
 import vf, progs, front
 from vf import S, Lst, sx_opt
@@ -109,7 +111,7 @@ def plant(rng, prog):
         it.kind = 'const'
         it.fields, it.variants, it.generics, it.tag, it.content, it.rename_all = [], [], [], None, None, None
         it.ty = progs.t_prim(rng.choice(['i32', 'u32', '&str', 'f64', 'bool']))
-        it.value = rng.choice(['-5', '1 + 2', 'foo(7)', '"text"', '1.5', 'true', 'u32::MAX', '(3)', '{ 4 }', '0x10', '7 as u32', 'OTHER'])
+        it.value = rng.choice(['-5', '1 + 2', 'foo(7)', '"text"', '1.5', 'true', 'u32::MAX', '(3)', '{ 4 }', '0x10', '7 as u32', 'OTHER', '-(5)', '-foo(7)', '-1.5', '(-(2))', '!0', '5'])
         d['where'] = f'const = {it.value}'
     elif how == 'serialized_as':
         if it.kind == 'struct' and it.fields:
@@ -128,6 +130,52 @@ def plant(rng, prog):
         else:
             return None
     return d
+
+
+# witnesses of the findings fixed in /repo: (finding, source, 'reject' | the const value that must be emitted)
+FIXED_WITNESSES = [
+    ('C08-const-expr', '#[typeshare]\nconst X: i32 = -5;\n', -5),
+    ('C08-const-expr', '#[typeshare]\nconst X: i32 = -(5);\n', -5),
+    ('C08-const-expr', '#[typeshare]\nconst X: i32 = (-(-(7)));\n', 7),
+    ('C08-const-expr', '#[typeshare]\nconst X: i32 = 1 + 2;\n', 'reject'),
+    ('C08-const-expr', '#[typeshare]\nconst X: i32 = foo(7);\n', 'reject'),
+    ('C08-const-expr', '#[typeshare]\nconst X: u32 = 7 as u32;\n', 'reject'),
+    ('C08-const-expr', '#[typeshare]\nconst X: i32 = -foo(7);\n', 'reject'),
+    ('C08-const-expr', '#[typeshare]\nconst X: i32 = { 4 };\n', 'reject'),
+    ('C08-const-expr', '#[typeshare]\nconst X: i32 = !0;\n', 'reject'),
+    ('C08-const-expr', '#[typeshare]\nconst X: i32 = -"s";\n', 'reject'),
+    ('C08-flatten-variant', '#[typeshare]\n#[serde(tag = "t", content = "c")]\nenum E { V { #[serde(flatten)] x: u8 } }\n', 'reject'),
+    ('C08-flatten-variant', '#[typeshare]\n#[serde(tag = "t", content = "c")]\nenum E { A, V { a: u8, #[serde(default, flatten)] x: Option<u8> } }\n', 'reject'),
+]
+
+
+def fixed_witnesses(chk):
+    """the witnesses of the fixed findings must now PASS: rejected with an error (and exit 1, diagnostic naming the file,
+    no output), or accepted with exactly the value the initialiser denotes - in the parser and in the generated text"""
+    res = front.run_front([(s, []) for _, s, _ in FIXED_WITNESSES])
+    jobs = [(s, 'typescript', 'ts', [], False) for _, s, _ in FIXED_WITNESSES]
+    outs = [run_binary(j) for j in jobs] if chk.cli_ok else [None] * len(jobs)
+    for k, ((fid, src, expect), r, o) in enumerate(zip(FIXED_WITNESSES, res, outs)):
+        chk.evaluations += 1
+        chk.count('fixed_witness_cases')
+        impl = r['impl']
+        payload = {'fixed_finding': fid, 'source': src, 'expected': expect, 'impl': impl, 'model': r['model'], 'cli': o}
+        if not front.same(impl, r['model']):
+            chk.violation(f'fixed-{k}', payload, f'witness of the fixed finding {fid}: parser::parse and the model disagree')
+            continue
+        errors = impl[1]['errors'] if impl[0] == 'ok' and impl[1] else []
+        consts = impl[1]['consts'] if impl[0] == 'ok' and impl[1] else []
+        if expect == 'reject':
+            if not errors or consts or (impl[1] and (impl[1]['enums'] or impl[1]['structs'])):
+                chk.violation(f'fixed-{k}', payload, f'witness of the fixed finding {fid} is accepted again (errors {errors}): regression')
+            elif o is not None and (o['rc'] != 1 or not o['stderr_names_file'] or not o['untouched']):
+                chk.violation(f'fixed-{k}', payload, f'witness of the fixed finding {fid}: the CLI must exit 1 with a diagnostic naming the file and write nothing')
+        else:
+            text = o.get('output') if o else None
+            if errors or len(consts) != 1 or f'z{expect}' not in consts[0].replace('(', ' ').replace(')', ' ').split():
+                chk.violation(f'fixed-{k}', payload, f'witness of the fixed finding {fid}: expected the const value {expect}, parser gives {consts} / errors {errors}: regression')
+            elif o is not None and (o['rc'] != 0 or text is None or f'= {expect};' not in text):
+                chk.violation(f'fixed-{k}', payload, f'witness of the fixed finding {fid}: the generated TypeScript must define X = {expect}')
 
 
 LANGS = [('typescript', 'ts', []), ('kotlin', 'kt', ['--java-package', 'p']), ('swift', 'swift', []), ('scala', 'scala', ['--scala-package', 'p']),
@@ -153,13 +201,13 @@ def run_binary(args):
         rc, err = 124, ''
     after = (out.read_bytes(), out.stat().st_mtime_ns) if out.exists() else None
     return {'rc': rc, 'stderr_names_file': 'lib.rs' in err, 'panicked': 'panicked at' in err, 'before': before is not None, 'untouched': before == after,
-            'stderr_tail': err[-400:]}
+            'output': after[0].decode(errors='replace')[-600:] if after is not None and before is None else None, 'stderr_tail': err[-400:]}
 
 
 def run(chk):
     chk.rule = ('a seeded supported program (lib/progs.py) with one unsupported construct planted: u64/i64/usize/isize/tuples inside container chains of '
                 'depth 0-5 at a field, payload, struct-variant field, alias/newtype target; tuple struct/variant with 2 fields; serde(flatten); '
-                'missing/forbidden tag+content; non-literal consts; bad serialized_as strings; 35% under serde(skip)/typeshare(skip). '
+                'missing/forbidden tag+content; non-literal consts (and negated / parenthesised literals, which are supported); bad serialized_as strings; 35% under serde(skip)/typeshare(skip). '
                 'non-trivial = distinct (program, plant) where the planted construct is not skipped')
     chk.assumptions = ['syn is not modelled: the model receives the AST produced by harness/libdrive/src/ast.rs from the same text',
                        'the CLI part (exit status, diagnostic, output untouched) is observed on the real binary; its model (errors => no write) is Props/C08 + C17']
@@ -167,6 +215,7 @@ def run(chk):
     if not chk.harness_ok:
         return
     rng = chk.rng
+    fixed_witnesses(chk)
     n = 1500 if chk.tier == 'quick' else 20000
     gen = progs.ProgGen(rng, progs.Profile(p_unannotated=0.1, p_skip=0.05))
     cases = []
@@ -193,8 +242,7 @@ def run(chk):
         chk.evaluations += 1
         chk.count('plant_' + d['how'] + ('_skipped' if d['skipped'] else ''))
         leaves = [(vf.unS(x[0]), x[1] == 'true', sx_opt(x[2]), x[3]) for x in j]
-        must_fail = [l for l in leaves if l[1] and l[2] is None]
-        known_bad = [l for l in leaves if l[1] and l[2] is not None]
+        must_fail = [l for l in leaves if l[1]]          # known_C08 is constantly None: no recorded class is excepted
         impl = r['impl']
         payload = {'plant': d, 'source': src, 'impl': impl if impl[0] != 'ok' else ('ok', {'errors': (impl[1] or {}).get('errors'), 'items': sum(len((impl[1] or {}).get(x, [])) for x in ('structs', 'enums', 'aliases', 'consts'))}),
                    'leaves': leaves}
@@ -213,9 +261,6 @@ def run(chk):
         nitems = payload['impl'][1]['items'] if impl[0] == 'ok' else 0
         good = nerr >= len(must_fail) and nerr + nitems == len(leaves)
         if good and equal:
-            for l in known_bad:
-                if impl[0] == 'ok' and nerr < len(must_fail) + len(known_bad):
-                    chk.known(l[2], payload)
             continue
         if nerr + nitems != len(leaves):
             chk.violation(f'{k}', payload, f'{len(leaves)} annotated items but {nitems} generated + {nerr} errors: an item was dropped or invented')
@@ -223,7 +268,7 @@ def run(chk):
             chk.violation(f'{k}', payload, f'{d["where"]} in item {d["item"]} is accepted without an error ({nerr} errors for {len(must_fail)} unsupported items)')
         else:
             corr.append(payload)
-    # known-finding bookkeeping happened above; now the CLI facet on a subset
+    # now the CLI facet on a subset
     nb = 240 if chk.tier == 'quick' else 3000
     sub = [c for c in cases if not c[1]['skipped']][:nb]
     jobs = []
@@ -237,8 +282,7 @@ def run(chk):
         for (src, d), job, o in zip(sub, jobs, outs):
             chk.evaluations += 1
             chk.count('cli_runs')
-            leaves = [(x[1] == 'true', sx_opt(x[2])) for x in judged[src]]
-            must_fail = any(u and kn is None for u, kn in leaves)
+            must_fail = any(x[1] == 'true' for x in judged[src])
             payload = {'plant': d, 'source': src, 'lang': job[1], 'cli': o}
             if o['rc'] in (124, 101, 134) or o['panicked']:
                 chk.count('cli_crash_or_hang (C07)')
